@@ -22,6 +22,7 @@ MCNext == /\ n < MaxSteps /\ n' = n + 1
                    \/ Show /\ H(St("show", "", 0))
                    \/ CreateTable /\ H(St("createtable", "", 0))
                    \/ Restart /\ H(St("restart", "", 0))
+                   \/ CrashRestart /\ H(St("crash", "", 0))
                    \/ \E v \in Vals : Small /\ Insert(v) /\ H(St("insert", "", v))
                    \/ \E v \in Vals : Delete(v) /\ H(St("delete", "", v))
 \* views of growing precision: more of the recent path in the fingerprint = more distinct paths generated
